@@ -171,7 +171,7 @@ REGISTRY = {
                 "misordered), files in sub-directories / without extension / several dots / in a directory that does not exist, reversed patches, threads 1/2/4/16. "
                 "Non-trivial: the failing patch has >= 2 file entries or a file with both applying and failing hunks.",
         "floor": floors(("reject-files-verified", 500), ("file-with-applying-and-failing-hunks", 50), ("several-files-rejected", 50), ("reject-legitimately-skipped-(no-directory)", 20), ("shape:reject-in-a-directory-created-by-this-run", 20),
-                        ("shape:failed-hunk-between-hunks-applied-with-an-offset", 30), ("shape:two-failing-file-patches-for-one-file", 30),
+                        ("shape:failed-hunk-between-hunks-applied-with-an-offset", 30), ("shape:two-failing-file-patches-for-one-file", 30), ("shape:failing-hunk-that-replaces-a-long-block", 20),
                         ("stale-reject-files-in-place", 100), ("rejects-read-back-with-the-tool's-parser", 500)),
     },
     "C14": {
@@ -212,7 +212,7 @@ REGISTRY = {
         "rule": "applied-patches longer than series / with unknown names / reordered / edited / duplicated / garbage; goal = unknown name, already applied name (also when everything is applied), "
                 "a number too big to parse, a truncated name; a missing / directory / truncated / malformed / binary / nameless patch at a random position of the range with no failing patch before it; "
                 "huge parseable counts (2^64-1, 2^63, 2^32, 0) must behave like 'as many as there are'. threads 1/4, -q/default, prior applied state, 20% with -d (relative / absolute) from the parent directory. All cases are refusal paths; distinct by (case, state, goal, configuration).",
-        "floor": floors(("refusals-verified", 1000), ("huge-counts-verified", 100), ("case:state:longer", 20), ("case:goal:applied-name-all-applied", 20), ("case:badpatch:missing", 20), ("runs-with--d", 200)),
+        "floor": floors(("refusals-verified", 1000), ("huge-counts-verified", 100), ("case:state:longer", 20), ("case:goal:applied-name-all-applied", 20), ("case:badpatch:missing", 20), ("runs-with--d", 200), ("goal-cases-with--a-as-well", 100)),
     },
     "C18": {
         "level": "fault_enumeration",
